@@ -75,7 +75,7 @@ def run(ctx):
     ctx.prepare()
     ctx.lean(["Crng.Props.C04"], ["Crng.Props.C04.final_shape", "Crng.Props.C04.literal_first", "Crng.Props.C04.literal_absent",
                                   "Crng.Props.C04.literal_max_zero", "Crng.Props.C04.not_clause_skips", "Crng.Props.C04.same_copy"],
-             ties=["Crng.Tie.C04", common.CODE_TABLE])
+             ties=["Crng.Tie.C04", common.CODE_TABLE, common.CODE_REWRITER])
     # literal rewriter on its own (bytes.Replace semantics, all max values)
     rnd = ctx.rng("rw")
     lines = []
